@@ -178,8 +178,14 @@ pub fn strategy() -> BoxedStrategy<Case> {
             }];
             let mut mode = BrokerMode::AutoAck;
             if let Some(m2) = second {
-                // leave requests unacknowledged, then resume under a smaller limit
+                // leave requests unacknowledged (and, sometimes, an acknowledgement owed: delivered by
+                // a single poll, its ack not written yet), then resume under a smaller limit
                 mode = BrokerMode::Scripted;
+                if m2 % 2 == 0 {
+                    let last = conns.last_mut().unwrap();
+                    last.steps.push(Step::Broker(BrokerAct::Deliver { qos: 1 + (m2 % 4 / 2) as u8, retain: false, topic: TopicSpec::new(1, 2), payload: PayloadSpec::new(1, 2), props: vec![], redeliver: None }));
+                    last.steps.push(Step::Poll { cancel: None });
+                }
                 conns.push(ConnScript {
                     connect: ConnectSpec { props: ConnackProps { max_packet: Some(m2), ..ConnackProps::default() }, io, ..ConnectSpec::default() },
                     steps: vec![Step::PollIdle { max: 4 }, Step::Publish(PubSpec::simple(0, 1, 0, 3)), Step::PollIdle { max: 4 }],
@@ -293,7 +299,7 @@ pub fn eval(case: &Case) -> Out {
                     if !err || last_conn0 != Some(false) {
                         bad(&mut viol, "C14/unsendable-ack-did-not-close".into(), format!("broker maximum {max}: a mandatory acknowledgement cannot be sent, expected an error and a dead handle (error seen: {err}, is_connected at the end: {last_conn0:?})"));
                     }
-                } else if max >= 5 && !acks_sent && stats.idle_points > 0 && last_connected_sample(&trace, 0) == Some(true) {
+                } else if max >= 5 && !acks_sent && idle_after_delivery(&trace) && last_connected_sample(&trace, 0) == Some(true) {
                     bad(&mut viol, "C14/fitting-ack-not-sent".into(), format!("broker maximum {max}: acknowledgement fits but was not sent"));
                 }
             }
@@ -333,6 +339,20 @@ pub fn eval(case: &Case) -> Out {
     }
     let replay_smaller = case.conns.len() > 1 && stats.resumed_with_inflight > 0;
     Out { violations: viol, near_limit, replay_smaller, ack_too_large, inbound_boundary, watchdog: trace.watchdog }
+}
+
+/// On transport 0: did a poll block (idle wait) after an inbound QoS>0 PUBLISH was delivered?
+fn idle_after_delivery(trace: &Trace) -> bool {
+    let mut delivered = false;
+    for e in &trace.events {
+        match e {
+            Event::Delivery { tr: 0, msg, .. } if trace.deliveries[*msg].qos > 0 => delivered = true,
+            Event::OpEnd { tr: 0, res: OpRes::Blocked { .. }, .. } if delivered => return true,
+            Event::ConnStart { tr, .. } if *tr != 0 => return false,
+            _ => {}
+        }
+    }
+    false
 }
 
 fn last_connected_sample(trace: &Trace, tr: usize) -> Option<bool> {
